@@ -153,8 +153,8 @@ CHECKS = {
         technique="deterministic simulation of longer concurrent phases (up to 4 threads x 8 ops) followed by quiescence; oracle: traversal visits exactly the keys that find() sees, strictly increasing where ordered, size()/empty() agree, EllenBinTree/Bronson check_consistency(), Bronson search order and AVL balance from recomputed heights",
     ),
     "C20": dict(
-        subjects=[(n, 250, 5000) for n in _S["list"] + _S["hash"] + _S["tree"] + _S["lockset"] + _S["queue"] + _S["stack"] + _S["deque"] + _S["pq"]],
-        classes=["not-linearizable", "functor-call-count", "functor-overlap", "freed-element-observed", "traversal-order", "traversal-mismatch", "size-mismatch", "inconsistent-structure", "avl-imbalance-behind-routing-node", "extract-minmax-false-empty", "extract-minmax-order", "double-dispose", "never-disposed", "dispose-not-inserted"] + ["not-linearizable"],
+        subjects=[(n, 250, 5000) for n in _S["list"] + _S["hash"] + _S["tree"] + _S["lockset"] + _S["queue"] + _S["stack"] + _S["deque"] + _S["pq"] + [x for x in _S["misc"] if "WeakRingBuffer" in x]],
+        classes=["not-linearizable", "functor-call-count", "functor-overlap", "freed-element-observed", "traversal-order", "traversal-mismatch", "size-mismatch", "inconsistent-structure", "avl-imbalance-behind-routing-node", "extract-minmax-false-empty", "extract-minmax-order", "double-dispose", "never-disposed", "dispose-not-inserted", "push-failed-with-space", "pop-failed-with-data", "wrong-element", "element-lost", "pop-front-failed", "wrong-record-size", "wrong-record-bytes"] + ["not-linearizable"],
         fatal_classes_as_violation=["hang-solo"],   # an operation that can never return although every other client has finished: the sequential specification is total
         assumptions=["one simulated client thread: the schedule space is a point; what the simulator adds is spurious weak-CAS failure, forced skip-list tower heights, seeded rand()/clock, SMR knobs and eager reclamation; the rest is plain seeded generation of operation sequences (stated in DESIGN.md)"],
         title="Single-threaded API behaviour matches the reference container model",
